@@ -93,14 +93,41 @@ Proof.
   - apply (InvL_mono (base s)); auto. simpl. rewrite H0. intros (? & ? & ? & [X|X]); discriminate.
 Qed.
 
-Record Inv16 (s : state2) : Prop := { i16_11 : Inv11 s; i16_l : InvL (base s) }.
+(* the reconnect pc is only ever entered on a closed connection *)
+Definition InvK (b : state) : Prop := rx b = RReconnect -> closed b = true.
+
+Lemma InvK_step2 : forall s l s', InvN (base s) -> InvK (base s) -> step2 s l = Some s' -> InvK (base s').
+Proof.
+  intros s l s' IN IK H. unfold InvK in *. apply step2_inv in H. destruct H; cbn [base wb upd_base].
+  - destruct l as [t h|[t|] clk|f|].
+    + step_cases H1; auto.
+    + step_cases H1; auto.
+    + simpl in H0. step_cases H1; try (destruct H0; fail); simpl; try discriminate; auto;
+        intro X; pose proof (settle_not_cs ks) as Q;
+        destruct (settle_cases ks) as [E|[(f0 & r0 & E)|(sid0 & r0 & E)]]; rewrite E in X; discriminate.
+    + step_cases H1; auto.
+    + step_cases H1; simpl; auto.
+  - auto.
+  - auto.
+  - rewrite base_warn2. simpl. rewrite H0. discriminate.
+  - pose proof (dispatch2_ok f ks s) as D.
+    destruct (d_rx _ _ D) as [(k & E)|[(r & c & v & k & E & _)|(i & c & k & E & _)]]; rewrite E; try discriminate.
+    intro X. destruct (settle_cases k) as [E1|[(f0 & r0 & E1)|(sid0 & r0 & E1)]]; rewrite E1 in X; discriminate.
+  - simpl. intro X. destruct (settle_cases ks) as [E1|[(f0 & r0 & E1)|(sid0 & r0 & E1)]]; rewrite E1 in X; discriminate.
+  - apply notify_b_inv in H1. destruct H1 as [[_ E]|(t & k & j & L & P & K & E)]; subst b'; simpl;
+      intro X; destruct (settle_cases ks) as [E1|[(f0 & r0 & E1)|(sid0 & r0 & E1)]]; rewrite E1 in X; discriminate.
+  - simpl. discriminate.
+Qed.
+
+Record Inv16 (s : state2) : Prop := { i16_11 : Inv11 s; i16_l : InvL (base s); i16_k : InvK (base s) }.
 
 Lemma Inv16_init : forall c, Inv16 (init2 c).
-Proof. intros c. constructor; [apply Inv11_init|apply InvL_init]. Qed.
+Proof. intros c. constructor; [apply Inv11_init|apply InvL_init|unfold InvK; simpl; discriminate]. Qed.
 
 Lemma Inv16_step : forall s l s', Inv16 s -> step2 s l = Some s' -> Inv16 s'.
 Proof.
-  intros s l s' [I L] H. constructor; [eapply Inv11_step; eauto|eapply InvL_step2; eauto].
+  intros s l s' [I L KK] H. constructor; [eapply Inv11_step; eauto|eapply InvL_step2; eauto|].
+  eapply InvK_step2; eauto. apply I.
 Qed.
 
 Lemma Inv16_run : forall c ls s, run2 (init2 c) ls = Some s -> Inv16 s.
@@ -295,7 +322,7 @@ Qed.
 Lemma keyed_step : forall s l s', step2 s l = Some s' -> keyed s = true -> keyed s' = true.
 Proof.
   intros s l s' H K. apply step2_inv in H. destruct H; auto.
-  - unfold warn2. cbn [upd_base wb wch]. destruct (wch s) as [|cap n]; [|destruct (Nat.ltb n cap)]; auto.
+  - unfold warn2. cbn [upd_base wb wch bump_failed]. destruct (wch s) as [|cap n]; [|destruct (Nat.ltb n cap)]; auto.
   - unfold dispatch2. destruct f as [[sid seq] b].
     assert (W : forall x, keyed (warn2 x) = keyed x).
     { intros x. unfold warn2. destruct (wch x) as [|cap n]; [|destruct (Nat.ltb n cap)]; auto. }
@@ -311,23 +338,22 @@ Qed.
 Definition step_label (l : label2) : Prop := exists a clk, l = L1 (LStep a clk).
 
 Lemma idle_kept : forall s l s' t, Inv11 s -> step_label l -> step2 s l = Some s' ->
-  c_pc (getc t (base s)) = CIdle ->
-  getc t (base s') = getc t (base s) /\
+  (c_pc (getc t (base s)) = CIdle -> getc t (base s') = getc t (base s)) /\
   (forall x, In x (rets (base s)) -> In x (rets (base s'))).
 Proof.
-  intros s l s' t [IA IC IN IR] (a & clk & EL) H ID. apply step2_inv in H.
+  intros s l s' t [IA IC IN IR] (a & clk & EL) H. apply step2_inv in H.
   destruct H; try discriminate; cbn [base wb upd_base].
   - (* lifted *) inversion EL; subst l. destruct a as [t0|].
-    + step_cases H1; norm; split; auto; eqt; auto; unfold getc in ID; congruence.
+    + step_cases H1; norm; split; auto; intros ID; eqt; auto; unfold getc in ID; congruence.
     + simpl in H0. step_cases H1; try (destruct H0; fail); norm; try (split; auto; fail).
-      * apply Nat.eqb_eq in Heqb. split; [|simpl; auto]. eqt; auto. unfold getc in ID. congruence.
-      * apply Nat.eqb_eq in Heqb. split; auto. eqt; auto. unfold getc in ID. congruence.
+      * apply Nat.eqb_eq in Heqb. split; [|simpl; auto]. intros ID. eqt; auto. unfold getc in ID. congruence.
+      * apply Nat.eqb_eq in Heqb. split; auto. intros ID. eqt; auto. unfold getc in ID. congruence.
   - rewrite base_warn2. simpl. auto.
   - pose proof (dispatch2_ok f ks s) as D. unfold getc. rewrite (d_callers _ _ D), (d_rets _ _ D). auto.
   - auto.
   - apply notify_b_inv in H1. destruct H1 as [[_ E]|(t0 & k & j & L & P & K & E)]; subst b'.
     + auto.
-    + norm. split; auto. eqt; auto. unfold getc in ID. congruence.
+    + norm. split; auto. intros ID. eqt; auto. unfold getc in ID. congruence.
   - auto.
 Qed.
 
@@ -338,14 +364,31 @@ Definition quiescent (b : state) : Prop :=
 
 Ltac potsimp :=
   unfold pot, cpot, hpot;
-  cbn [rx wire_in closed callers set_pc set_caller set_rx set_lock set_last set_tables set_in log set_salt
-       add_ret send add_tables reopen rxpot inpot is_reconnect base wb upd_base].
+  cbn [rx wire_in closed callers set_rx set_lock set_last set_tables set_in log set_salt
+       add_ret send add_tables reopen rxpot inpot is_reconnect base wb upd_base bump_failed].
+
+Lemma pot_set_pc : forall b b1 t p,
+  wire_in b1 = wire_in b -> closed b1 = closed b -> callers b1 = callers b ->
+  is_reconnect (rx b1) = is_reconnect (rx b) ->
+  (rxpot (rx b1) + hw p < rxpot (rx b) + hw (c_pc (getc t b)))%nat ->
+  (pot (set_pc t p b1) < pot b)%nat.
+Proof.
+  intros b b1 t p W C CL RC Lt. pose proof (hpot_set_pc t p b1) as HP.
+  assert (G : getc t b1 = getc t b) by (unfold getc; rewrite CL; auto). rewrite G in HP.
+  assert (HB : hpot b1 = hpot b) by (unfold hpot; rewrite CL; auto). rewrite HB in HP.
+  unfold pot, cpot.
+  change (rx (set_pc t p b1)) with (rx b1). change (wire_in (set_pc t p b1)) with (wire_in b1).
+  change (closed (set_pc t p b1)) with (closed b1). rewrite W, C, RC. lia.
+Qed.
+
+Lemma pot_add_ret : forall x b, pot (add_ret x b) = pot b.
+Proof. reflexivity. Qed.
 
 Lemma drain_step : forall s, Inv16 s -> keyed s = true ->
   quiescent (base s) \/
   exists l s', step_label l /\ step2 s l = Some s' /\ (pot (base s') < pot (base s))%nat.
 Proof.
-  intros s [[IA IC IN IR] IL] K.
+  intros s [[IA IC IN IR] IL IK] K.
   destruct (Nat.eq_dec (hpot (base s)) 0) as [HZ|HN].
   2:{ (* somebody is inside the critical section: let him finish *)
       right. destruct (hsum_pos (callers (base s))) as (t & T); [unfold hpot in HN; lia|].
@@ -353,22 +396,10 @@ Proof.
       destruct (c_pc (getc t (base s))) eqn:P; simpl in T; try lia.
       - exists (L1 (LStep (ACaller t) 0)). eexists. split; [do 2 eexists; reflexivity|]. split.
         + simpl. rewrite K. simpl. unfold lift, step, step_caller. rewrite P. reflexivity.
-        + cbn [base wb]. pose proof (hpot_set_pc t (CWritten i)
-            (send (mk_req i t (c_k (getc t (base s))) (c_hint (getc t (base s))) (base s))
-                  (add_tables i t (getc t (base s)) (base s)))) as HP.
-          assert (G : getc t (send (mk_req i t (c_k (getc t (base s))) (c_hint (getc t (base s))) (base s))
-                  (add_tables i t (getc t (base s)) (base s))) = getc t (base s)) by reflexivity.
-          rewrite G, P in HP. simpl hw in HP.
-          assert (HB : hpot (send (mk_req i t (c_k (getc t (base s))) (c_hint (getc t (base s))) (base s))
-                  (add_tables i t (getc t (base s)) (base s))) = hpot (base s)) by reflexivity.
-          rewrite HB in HP. unfold pot, cpot. cbn [rx wire_in closed set_pc set_caller]. lia.
+        + cbn [base wb]. apply pot_set_pc; auto. rewrite P. simpl. lia.
       - exists (L1 (LStep (ACaller t) 0)). eexists. split; [do 2 eexists; reflexivity|]. split.
         + simpl. rewrite K. simpl. unfold lift, step, step_caller. rewrite P. reflexivity.
-        + cbn [base wb]. pose proof (hpot_set_pc t (CRecv i) (set_lock None (base s))) as HP.
-          assert (G : getc t (set_lock None (base s)) = getc t (base s)) by reflexivity.
-          rewrite G, P in HP. simpl hw in HP.
-          assert (HB : hpot (set_lock None (base s)) = hpot (base s)) by reflexivity.
-          rewrite HB in HP. unfold pot, cpot. cbn [rx wire_in closed set_pc set_caller]. lia. }
+        + cbn [base wb]. apply pot_set_pc; auto. rewrite P. simpl. lia. }
   assert (NOCS : forall t, ~ in_cs (c_pc (getc t (base s)))).
   { intros t (i & [X|X]); pose proof (hsum_zero _ t HZ) as Z; fold (getc t (base s)) in Z; rewrite X in Z; discriminate. }
   assert (STEP : forall X, step_rx2 0 s = Some X -> (pot (base X) < pot (base s))%nat ->
@@ -405,27 +436,15 @@ Proof.
     + eapply STEP.
       * unfold step_rx2. rewrite R. unfold lift, step, step_rx. rewrite R. unfold deliver.
         rewrite PP, CK, Nat.eqb_refl, RV. reflexivity.
-      * cbn [base wb]. pose proof (hpot_set_pc t CIdle
-            (set_rx (settle ks) (set_tables (del_key req (table (base s))) (delz req (hints (base s))) (base s)))) as HP.
-        assert (G : getc t (set_rx (settle ks) (set_tables (del_key req (table (base s))) (delz req (hints (base s))) (base s)))
-                    = getc t (base s)) by reflexivity.
-        rewrite G, PP in HP. simpl hw in HP.
-        assert (HB : hpot (set_rx (settle ks) (set_tables (del_key req (table (base s))) (delz req (hints (base s))) (base s)))
-                     = hpot (base s)) by reflexivity.
-        rewrite HB in HP. unfold pot, cpot. cbn [rx wire_in closed set_pc set_caller add_ret set_rx set_tables].
-        rewrite R, SR. simpl rxpot. simpl is_reconnect. lia.
+      * cbn [base wb option_map]. rewrite pot_add_ret. apply pot_set_pc; auto.
+        -- simpl. rewrite R, SR. reflexivity.
+        -- rewrite PP, R. simpl. lia.
     + eapply STEP.
       * unfold step_rx2. rewrite R. unfold lift, step, step_rx. rewrite R. unfold deliver.
         rewrite PP, CK, Nat.eqb_refl, RV. reflexivity.
-      * cbn [base wb]. pose proof (hpot_set_pc t CStuck
-            (set_rx (settle ks) (set_tables (del_key req (table (base s))) (delz req (hints (base s))) (base s)))) as HP.
-        assert (G : getc t (set_rx (settle ks) (set_tables (del_key req (table (base s))) (delz req (hints (base s))) (base s)))
-                    = getc t (base s)) by reflexivity.
-        rewrite G, PP in HP. simpl hw in HP.
-        assert (HB : hpot (set_rx (settle ks) (set_tables (del_key req (table (base s))) (delz req (hints (base s))) (base s)))
-                     = hpot (base s)) by reflexivity.
-        rewrite HB in HP. unfold pot, cpot. cbn [rx wire_in closed set_pc set_caller add_ret set_rx set_tables].
-        rewrite R, SR. simpl rxpot. simpl is_reconnect. lia.
+      * cbn [base wb option_map]. apply pot_set_pc; auto.
+        -- simpl. rewrite R, SR. reflexivity.
+        -- rewrite PP, R. simpl. lia.
   - (* ack: take the lock *)
     right. destruct (lock (base s)) as [[t|]|] eqn:LK.
     + destruct (NOCS t). apply (l_c _ IL). auto.
@@ -450,22 +469,319 @@ Proof.
     pose proof (rxpot_settle ks) as ST. pose proof (settle_not_reconnect ks) as SR.
     eapply STEP.
     + unfold step_rx2. rewrite R. unfold notify2, notify_b. rewrite LK, PP, CK, Nat.eqb_refl. reflexivity.
-    + cbn [base wb option_map]. pose proof (hpot_set_pc t CLock
-            (set_rx (settle ks) (set_tables (del_key i (table (base s))) (delz i (hints (base s))) (base s)))) as HP.
-      assert (G : getc t (set_rx (settle ks) (set_tables (del_key i (table (base s))) (delz i (hints (base s))) (base s)))
-                  = getc t (base s)) by reflexivity.
-      rewrite G, PP in HP. simpl hw in HP.
-      assert (HB : hpot (set_rx (settle ks) (set_tables (del_key i (table (base s))) (delz i (hints (base s))) (base s)))
-                   = hpot (base s)) by reflexivity.
-      rewrite HB in HP. unfold pot, cpot. cbn [rx wire_in closed set_pc set_caller set_rx set_tables].
-      rewrite R, SR. simpl rxpot. simpl is_reconnect. lia.
+    + cbn [base wb option_map]. apply pot_set_pc; auto.
+      * simpl. rewrite R, SR. reflexivity.
+      * rewrite PP, R. simpl. lia.
   - (* reconnect *)
     right. eapply STEP.
     + unfold step_rx2. rewrite R. reflexivity.
     + potsimp. rewrite R. simpl.
       assert (C : closed (base s) = true \/ closed (base s) = false) by (destruct (closed (base s)); auto).
       destruct C as [C|C]; rewrite C; simpl; try lia.
-      (* an open connection at the reconnect pc cannot happen, but costs nothing to cover *)
-      admit.
+      rewrite (IK R) in C. discriminate.
   - destruct (n_alive _ IN R).
-Admitted.
+Qed.
+
+Lemma run2_cons : forall s l ls, run2 s (l :: ls) = match step2 s l with Some x => run2 x ls | None => None end.
+Proof.
+  intros. unfold run2. simpl. destruct (step2 s l); auto.
+  induction ls; simpl; auto.
+Qed.
+
+Lemma run2_app2 : forall s l1 l2 s1, run2 s l1 = Some s1 -> run2 s (l1 ++ l2) = run2 s1 l2.
+Proof. intros. unfold run2 in *. rewrite fold_left_app, H. reflexivity. Qed.
+
+(* from every reachable state the client's own goroutines, scheduled suitably and without any
+   further message from the server, bring the receive loop back to an idle read *)
+Lemma drain : forall n s, (pot (base s) <= n)%nat -> Inv16 s -> keyed s = true ->
+  exists ls s', run2 s ls = Some s' /\ Forall step_label ls /\ quiescent (base s') /\ keyed s' = true /\
+    Inv16 s' /\
+    (forall t, c_pc (getc t (base s)) = CIdle -> getc t (base s') = getc t (base s)) /\
+    (forall x, In x (rets (base s)) -> In x (rets (base s'))).
+Proof.
+  induction n as [|n IH]; intros s Le I K.
+  - destruct (drain_step s I K) as [Q|(l & s1 & SL & ST & Lt)]; [|lia].
+    exists [], s. split; [reflexivity|]. split; [constructor|]. split; [exact Q|]. split; [exact K|]. split; [exact I|]. split; auto.
+  - destruct (drain_step s I K) as [Q|(l & s1 & SL & ST & Lt)].
+    + exists [], s. split; [reflexivity|]. split; [constructor|]. split; [exact Q|]. split; [exact K|]. split; [exact I|]. split; auto.
+    + pose proof (Inv16_step _ _ _ I ST) as I1. pose proof (keyed_step _ _ _ ST K) as K1.
+      destruct (IH s1 ltac:(lia) I1 K1) as (ls & s' & R & F & Q & K' & I' & ID & RT).
+      exists (l :: ls), s'. rewrite run2_cons, ST.
+      split; [exact R|]. split; [constructor; auto|]. split; [exact Q|]. split; [exact K'|]. split; [exact I'|]. split.
+      * intros t P. destruct (idle_kept _ _ _ t (i16_11 _ I) SL ST) as [G _]. specialize (G P).
+        rewrite <- G. apply ID. rewrite G. auto.
+      * intros x X. apply RT. destruct (idle_kept _ _ _ O (i16_11 _ I) SL ST) as [_ G]; auto.
+Qed.
+
+(* ---- probe ------------------------------------------------------------------------------------- *)
+
+Lemma quiescent_lock : forall s, Inv16 s -> quiescent (base s) -> lock (base s) = None.
+Proof.
+  intros s [_ IL _] (R & _ & _ & HZ). destruct (lock (base s)) as [[t|]|] eqn:LK; auto.
+  - destruct (l_c _ IL _ LK) as (i & [X|X]); pose proof (hsum_zero _ t HZ) as Z;
+      fold (getc t (base s)) in Z; rewrite X in Z; discriminate.
+  - destruct (l_r _ IL LK) as (? & ? & ? & [X|X]); congruence.
+Qed.
+
+(* the labels of one complete call of caller t answered by the server with (object, p):
+   call, take the lock and an id, write, release, [server: rpc_result for that id], read, dispatch, deliver *)
+Definition probe_labels (t : nat) (clk sid : Z) (i p : Z) : list label2 :=
+  [L1 (LCall t false); L1 (LStep (ACaller t) clk); L1 (LStep (ACaller t) 0); L1 (LStep (ACaller t) 0);
+   L1 (LSrv (sid, 0, BResult i false KObj p));
+   L1 (LStep ARx 0); L1 (LStep ARx 0); L1 (LStep ARx 0)].
+
+Lemma wb_wb : forall x y s, wb x (wb y s) = wb x s.
+Proof. reflexivity. Qed.
+
+Lemma probe : forall s t clk sid p, Inv16 s -> keyed s = true -> quiescent (base s) ->
+  c_pc (getc t (base s)) = CIdle -> (sid mod 4 = 1) ->
+  let i := fresh_id (last_id (base s)) clk in
+  let k := S (c_k (getc t (base s))) in
+  exists s', run2 s (probe_labels t clk sid i p) = Some s' /\
+    In (t, k, i, RetVal KObj p) (rets (base s')) /\
+    c_pc (getc t (base s')) = CIdle /\ rx (base s') = RRead.
+Proof.
+  intros s t clk sid p I K Q ID SM i k. pose proof (quiescent_lock _ I Q) as LK.
+  destruct Q as (R & W & C & _).
+  (* call *)
+  set (b1 := set_caller t {| c_pc := CLock; c_hint := false; c_k := k |} (base s)).
+  assert (S1 : step2 s (L1 (LCall t false)) = Some (wb b1 s)).
+  { unfold step2. rewrite K. cbn [negb]. unfold lift, step. rewrite ID. reflexivity. }
+  assert (G1 : getc t b1 = {| c_pc := CLock; c_hint := false; c_k := k |}).
+  { unfold b1. rewrite getc_set_caller, Nat.eqb_refl. reflexivity. }
+  (* acquire *)
+  set (b2 := set_pc t (CReg i) (set_last i (set_lock (Some (ACaller t)) b1))).
+  assert (S2 : step2 (wb b1 s) (L1 (LStep (ACaller t) clk)) = Some (wb b2 s)).
+  { unfold step2. cbn [keyed wb]. rewrite K. cbn [negb]. unfold lift. cbn [base wb]. unfold step, step_caller.
+    rewrite G1. cbn [c_pc]. change (lock b1) with (lock (base s)). rewrite LK. reflexivity. }
+  assert (G2 : getc t b2 = {| c_pc := CReg i; c_hint := false; c_k := k |}).
+  { unfold b2. rewrite getc_set_pc, Nat.eqb_refl.
+    change (getc t (set_last i (set_lock (Some (ACaller t)) b1))) with (getc t b1). rewrite G1. reflexivity. }
+  (* write *)
+  set (b3 := set_pc t (CWritten i) (send (mk_req i t k false b2) (add_tables i t {| c_pc := CReg i; c_hint := false; c_k := k |} b2))).
+  assert (S3 : step2 (wb b2 s) (L1 (LStep (ACaller t) 0)) = Some (wb b3 s)).
+  { unfold step2. cbn [keyed wb]. rewrite K. cbn [negb]. unfold lift. cbn [base wb]. unfold step, step_caller.
+    rewrite G2. reflexivity. }
+  assert (G3 : getc t b3 = {| c_pc := CWritten i; c_hint := false; c_k := k |}).
+  { unfold b3. rewrite getc_set_pc, Nat.eqb_refl.
+    change (getc t (send (mk_req i t k false b2) (add_tables i t {| c_pc := CReg i; c_hint := false; c_k := k |} b2))) with (getc t b2).
+    rewrite G2. reflexivity. }
+  assert (T3 : table b3 = (i, (t, k)) :: table (base s)) by reflexivity.
+  (* release *)
+  set (b4 := set_pc t (CRecv i) (set_lock None b3)).
+  assert (S4 : step2 (wb b3 s) (L1 (LStep (ACaller t) 0)) = Some (wb b4 s)).
+  { unfold step2. cbn [keyed wb]. rewrite K. cbn [negb]. unfold lift. cbn [base wb]. unfold step, step_caller.
+    rewrite G3. reflexivity. }
+  assert (G4 : getc t b4 = {| c_pc := CRecv i; c_hint := false; c_k := k |}).
+  { unfold b4. rewrite getc_set_pc, Nat.eqb_refl. change (getc t (set_lock None b3)) with (getc t b3). rewrite G3. reflexivity. }
+  (* the server answers *)
+  set (f := (sid, 0, BResult i false KObj p)).
+  set (b5 := push_srv f b4).
+  assert (S5 : step2 (wb b4 s) (L1 (LSrv f)) = Some (wb b5 s)).
+  { unfold step2. cbn [keyed wb]. rewrite K. cbn [negb base wb]. change (closed b4) with (closed (base s)). rewrite C. reflexivity. }
+  assert (W5 : wire_in b5 = [f]) by (change (wire_in b5) with (wire_in (base s) ++ [f]); rewrite W; reflexivity).
+  assert (R5 : rx b5 = RRead) by (change (rx b5) with (rx (base s)); exact R).
+  (* read *)
+  set (b6 := set_rx (RDispatch f []) (set_in [] b5)).
+  assert (TO : transport_ok f = true) by (unfold f, transport_ok; rewrite SM; reflexivity).
+  assert (S6 : step2 (wb b5 s) (L1 (LStep ARx 0)) = Some (wb b6 s)).
+  { unfold step2. cbn [keyed wb]. rewrite K. cbn [negb]. unfold step_rx2. cbn [base wb]. rewrite R5, W5, TO.
+    unfold lift. cbn [base wb]. unfold step, step_rx. rewrite R5, W5. reflexivity. }
+  (* dispatch *)
+  set (s7 := dispatch2 f [] (wb b6 s)).
+  assert (S7 : step2 (wb b6 s) (L1 (LStep ARx 0)) = Some s7).
+  { unfold step2. cbn [keyed wb]. rewrite K. cbn [negb]. unfold step_rx2. cbn [base wb]. reflexivity. }
+  assert (D7 : s7 = wb (set_rx (RDeliver i (t, k) (VRes KObj p) [KTail sid 0]) (log (EDisp i (VRes KObj p)) (log (ERecv sid 0) b6))) s).
+  { unfold s7, dispatch2, f. cbn [base wb upd_base decodes strip is_vec negb].
+    change (table b6) with (table b3). rewrite T3. cbn [lookup]. rewrite Z.eqb_refl. reflexivity. }
+  (* deliver *)
+  set (b7 := set_rx (RDeliver i (t, k) (VRes KObj p) [KTail sid 0]) (log (EDisp i (VRes KObj p)) (log (ERecv sid 0) b6))) in *.
+  set (b8 := add_ret (t, k, i, RetVal KObj p)
+       (set_pc t CIdle (set_rx (settle [KTail sid 0]) (set_tables (del_key i (table b7)) (delz i (hints b7)) b7)))).
+  assert (S8 : step2 s7 (L1 (LStep ARx 0)) = Some (wb b8 s)).
+  { rewrite D7. unfold step2. cbn [keyed wb]. rewrite K. cbn [negb]. unfold step_rx2. cbn [base wb].
+    change (rx b7) with (RDeliver i (t, k) (VRes KObj p) [KTail sid 0]). unfold lift. cbn [base wb]. unfold step, step_rx.
+    change (rx b7) with (RDeliver i (t, k) (VRes KObj p) [KTail sid 0]). unfold deliver.
+    change (getc t b7) with (getc t b4). rewrite G4. cbn [c_pc c_k]. rewrite Nat.eqb_refl. reflexivity. }
+  exists (wb b8 s). split.
+  - unfold probe_labels. fold f.
+    rewrite run2_cons, S1, run2_cons, S2, run2_cons, S3, run2_cons, S4, run2_cons, S5, run2_cons, S6, run2_cons, S7, run2_cons, S8.
+    reflexivity.
+  - cbn [base wb]. split; [left; reflexivity|]. split.
+    + unfold b8. change (getc t (add_ret (t, k, i, RetVal KObj p)
+        (set_pc t CIdle (set_rx (settle [KTail sid 0]) (set_tables (del_key i (table b7)) (delz i (hints b7)) b7)))))
+        with (getc t (set_pc t CIdle (set_rx (settle [KTail sid 0]) (set_tables (del_key i (table b7)) (delz i (hints b7)) b7)))).
+      rewrite getc_set_pc, Nat.eqb_refl. reflexivity.
+    + reflexivity.
+Qed.
+
+(* ---- C16 assembled ------------------------------------------------------------------------------ *)
+
+(* after every history: the receive loop has not died; and for every idle caller there is a schedule of
+   the client's own goroutines (no help from the server) after which a call of that caller, answered by
+   the server, returns that answer *)
+Lemma alive : forall c ls s, run2 (init2 c) ls = Some s ->
+  rx (base s) <> RDead /\
+  (keyed s = true -> forall t p clk sid, c_pc (getc t (base s)) = CIdle -> sid mod 4 = 1 ->
+     exists dl s1 s', Forall step_label dl /\ run2 s dl = Some s1 /\
+       rx (base s1) = RRead /\ wire_in (base s1) = [] /\ closed (base s1) = false /\
+       let i := fresh_id (last_id (base s1)) clk in
+       let k := S (c_k (getc t (base s))) in
+       run2 s1 (probe_labels t clk sid i p) = Some s' /\
+       In (t, k, i, RetVal KObj p) (rets (base s')) /\
+       (forall x, In x (rets (base s)) -> In x (rets (base s1)))).
+Proof.
+  intros c ls s H. pose proof (Inv16_run _ _ _ H) as I. split; [apply (n_alive _ (i11_n _ (i16_11 _ I)))|].
+  intros K t p clk sid ID SM.
+  destruct (drain (pot (base s)) s (le_n _) I K) as (dl & s1 & R & F & Q & K1 & I1 & IDK & RT).
+  pose proof (IDK t ID) as G.
+  assert (ID1 : c_pc (getc t (base s1)) = CIdle) by (rewrite G; auto).
+  destruct (probe s1 t clk sid p I1 K1 Q ID1 SM) as (s' & R' & IN' & _).
+  exists dl, s1, s'. split; auto. split; auto. destruct Q as (Q1 & Q2 & Q3 & _).
+  split; auto. split; auto. split; auto. cbv zeta. rewrite <- G. split; auto.
+Qed.
+
+(* ---- resume: the key survives a reconnect ------------------------------------------------------ *)
+
+Lemma meta_warn2 : forall x, keyed (warn2 x) = keyed x /\ plain_out (warn2 x) = plain_out x /\
+                        keyex (warn2 x) = keyex x /\ gen (warn2 x) = gen x.
+Proof. intros x. unfold warn2. destruct (wch x) as [|cap n]; [|destruct (Nat.ltb n cap)]; auto. Qed.
+Lemma keyed_warn2 : forall x, keyed (warn2 x) = keyed x. Proof. intros; apply meta_warn2. Qed.
+Lemma plain_warn2 : forall x, plain_out (warn2 x) = plain_out x. Proof. intros; apply meta_warn2. Qed.
+Lemma keyex_warn2 : forall x, keyex (warn2 x) = keyex x. Proof. intros; apply meta_warn2. Qed.
+Lemma gen_warn2 : forall x, gen (warn2 x) = gen x. Proof. intros; apply meta_warn2. Qed.
+Lemma meta_handle2 : forall x, keyed (handle2 x) = keyed x /\ plain_out (handle2 x) = plain_out x /\
+                        keyex (handle2 x) = keyex x /\ gen (handle2 x) = gen x.
+Proof. intros x. unfold handle2. destruct (handler x); auto. apply meta_warn2. Qed.
+Lemma keyed_handle2 : forall x, keyed (handle2 x) = keyed x. Proof. intros; apply meta_handle2. Qed.
+Lemma plain_handle2 : forall x, plain_out (handle2 x) = plain_out x. Proof. intros; apply meta_handle2. Qed.
+Lemma keyex_handle2 : forall x, keyex (handle2 x) = keyex x. Proof. intros; apply meta_handle2. Qed.
+Lemma gen_handle2 : forall x, gen (handle2 x) = gen x. Proof. intros; apply meta_handle2. Qed.
+
+Lemma meta_dispatch2 : forall f ks s,
+  keyed (dispatch2 f ks s) = keyed s /\ plain_out (dispatch2 f ks s) = plain_out s /\
+  keyex (dispatch2 f ks s) = keyex s /\ gen (dispatch2 f ks s) = gen s.
+Proof.
+  intros [[sid seq] b] ks s. unfold dispatch2, fail2.
+  destruct (negb (decodes (hinted_for b (base s)) b));
+    [rewrite keyed_warn2, plain_warn2, keyex_warn2, gen_warn2; auto|].
+  destruct (strip b);
+    repeat match goal with |- context [lookup ?a ?b] => destruct (lookup a b) end;
+    rewrite ?keyed_warn2, ?plain_warn2, ?keyex_warn2, ?gen_warn2;
+    cbn [upd_base wb keyed plain_out keyex gen adopt2];
+    rewrite ?keyed_handle2, ?plain_handle2, ?keyex_handle2, ?gen_handle2; auto.
+Qed.
+
+Lemma meta_step : forall s l s', step2 s l = Some s' -> keyed s = true ->
+  keyed s' = true /\ plain_out s' = plain_out s /\ keyex s' = keyex s /\
+  (gen s' = gen s \/ (gen s' = S (gen s) /\ rx (base s) = RReconnect)).
+Proof.
+  intros s l s' H K. apply step2_inv in H. destruct H; auto.
+  - congruence.
+  - unfold warn2. cbn [upd_base wb wch bump_failed]. destruct (wch s) as [|cap n]; [|destruct (Nat.ltb n cap)]; auto.
+  - destruct (meta_dispatch2 f ks s) as (A & B & C & D). rewrite A, B, C, D. auto.
+  - simpl. auto 6.
+Qed.
+
+Lemma run2_split : forall l1 l2 s s', run2 s (l1 ++ l2) = Some s' ->
+  exists s1, run2 s l1 = Some s1 /\ run2 s1 l2 = Some s'.
+Proof.
+  intros l1 l2 s s' H. destruct (run2 s l1) as [s1|] eqn:E.
+  - exists s1. split; auto. rewrite (run2_app2 _ _ _ _ E) in H. auto.
+  - exfalso. unfold run2 in *. rewrite fold_left_app, E in H.
+    clear - H. induction l2; simpl in H; [discriminate|auto].
+Qed.
+
+Lemma meta_run : forall ls s s', run2 s ls = Some s' -> keyed s = true ->
+  keyed s' = true /\ plain_out s' = plain_out s /\ keyex s' = keyex s /\ (gen s <= gen s')%nat.
+Proof.
+  induction ls as [|l ls IH] using rev_ind; intros s s' H K.
+  - inversion H. subst. auto.
+  - rewrite run2_app in H. destruct (run2 s ls) as [x|] eqn:E; [|discriminate].
+    destruct (IH _ _ E K) as (A & B & C & D). destruct (meta_step _ _ _ H A) as (A' & B' & C' & D').
+    split; auto. split; [congruence|]. split; [congruence|]. destruct D' as [D'|[D' _]]; lia.
+Qed.
+
+(* over every history: plain (unencrypted) frames are written only by a key exchange, there is at
+   most one key exchange, and none at all in a session that was loaded from the store *)
+Lemma keyex_once : forall c ls s, run2 (init2 c) ls = Some s ->
+  plain_out s = (3 * keyex s)%nat /\ (keyex s <= 1)%nat /\
+  (cf_keyed c = true -> keyex s = O /\ keyed s = true) /\
+  (keyex s = 1%nat -> keyed s = true) /\
+  (keyed s = false -> base s = init).
+Proof.
+  intros c ls s H.
+  assert (X : plain_out s = (3 * keyex s)%nat /\ (keyex s <= 1)%nat /\
+      (cf_keyed c = true -> keyex s = O /\ keyed s = true) /\ (keyex s = 1%nat -> keyed s = true) /\
+      (keyed s = false -> base s = init) /\ (keyed s = false -> keyex s = O)); [|tauto].
+  revert ls s H.
+  apply (run2_invariant (fun s => plain_out s = (3 * keyex s)%nat /\ (keyex s <= 1)%nat /\
+      (cf_keyed c = true -> keyex s = O /\ keyed s = true) /\ (keyex s = 1%nat -> keyed s = true) /\
+      (keyed s = false -> base s = init) /\ (keyed s = false -> keyex s = O))).
+  - simpl. repeat split; auto; try discriminate.
+  - intros s l s' (A & B & C & D & E & F) H. destruct (keyed s) eqn:K.
+    + destruct (meta_step _ _ _ H K) as (A' & B' & C' & _). rewrite A', B', C'.
+      split; [auto|]. split; [auto|]. split; [exact C|]. split; [auto|]. split; intros; discriminate.
+    + apply step2_inv in H. destruct H; try congruence.
+      * simpl. rewrite K. auto 7.
+      * simpl. rewrite (F eq_refl). rewrite A, (F eq_refl). repeat split; auto; try discriminate; try lia.
+Qed.
+
+Lemma resume : forall c pre post s, run2 (init2 c) (pre ++ L1 LClose :: post) = Some s ->
+  exists s0, run2 (init2 c) pre = Some s0 /\ keyed s0 = true /\ closed (base s0) = false /\
+    keyed s = true /\ plain_out s = plain_out s0 /\ keyex s = keyex s0 /\ (gen s0 <= gen s)%nat.
+Proof.
+  intros c pre post s H. apply run2_split in H. destruct H as (s0 & H0 & H1).
+  exists s0. split; auto. rewrite run2_cons in H1.
+  destruct (step2 s0 (L1 LClose)) as [s1|] eqn:E; [|discriminate].
+  assert (K : keyed s0 = true).
+  { simpl in E. destruct (keyed s0); auto. discriminate. }
+  assert (C : closed (base s0) = false).
+  { simpl in E. rewrite K in E. simpl in E. destruct (closed (base s0)); auto. discriminate. }
+  destruct (meta_step _ _ _ E K) as (K1 & P1 & X1 & G1).
+  destruct (meta_run _ _ _ H1 K1) as (K2 & P2 & X2 & G2).
+  split; auto. split; auto. split; auto. split; [congruence|]. split; [congruence|].
+  destruct G1 as [G1|[G1 _]]; lia.
+Qed.
+
+Lemma reconnect_step : forall s clk, keyed s = true -> rx (base s) = RReconnect ->
+  exists s', step2 s (L1 (LStep ARx clk)) = Some s' /\ gen s' = S (gen s) /\
+    rx (base s') = RRead /\ closed (base s') = false /\ wire_in (base s') = [] /\
+    keyed s' = true /\ plain_out s' = plain_out s /\ keyex s' = keyex s /\
+    salt (base s') = salt (base s) /\ table (base s') = table (base s) /\ callers (base s') = callers (base s).
+Proof.
+  intros s clk K R. eexists. split.
+  - simpl. rewrite K. simpl. unfold step_rx2. rewrite R. reflexivity.
+  - simpl. auto 12.
+Qed.
+
+(* ---- step2 extends step ------------------------------------------------------------------------ *)
+
+(* every transition of Client/Model.v that Live.v does not replace is taken over unchanged ... *)
+Lemma conservative : forall s l b', keyed s = true -> lifted_ok s l -> step (base s) l = Some b' ->
+  step2 s (L1 l) = Some (wb b' s).
+Proof.
+  intros s l b' K OK H.
+  assert (L : lift s l = Some (wb b' s)) by (unfold lift; rewrite H; reflexivity).
+  simpl. rewrite K. simpl.
+  destruct l as [t h|[t|] clk|f|]; simpl in OK; auto.
+  - unfold step_rx2. destruct (rx (base s)) eqn:R; try (destruct OK; fail); auto.
+    destruct (wire_in (base s)) as [|f r] eqn:W; auto. rewrite OK. auto.
+  - rewrite OK. auto.
+  - rewrite OK. auto.
+Qed.
+
+(* ... and the repaired dispatch agrees with the old one wherever the old one neither panics (RDead)
+   nor reaches the notify pc that Model.v leaves without transitions *)
+Lemma dispatch_agrees : forall f ks s,
+  rx (dispatch f ks (base s)) <> RDead -> (forall k k2, rx (dispatch f ks (base s)) <> RNotify k k2) ->
+  base (dispatch2 f ks s) = dispatch f ks (base s).
+Proof.
+  intros [[sid seq] b] ks s ND NN. unfold dispatch, dispatch2 in *.
+  destruct (negb (decodes (hinted_for b (base s)) b)); [destruct ND; reflexivity|].
+  destruct (strip b); try (destruct ND; reflexivity); try reflexivity.
+  - destruct (lookup req (table (base s))); [reflexivity|destruct ND; reflexivity].
+  - destruct (lookup req (table (base s))); [reflexivity|destruct ND; reflexivity].
+  - rewrite base_upd, base_handle2. reflexivity.
+  - exfalso. eapply NN. reflexivity.
+Qed.
